@@ -350,3 +350,24 @@ def context_sessions(exprs, first_id=1, ctx_filter=None):
             out.append({"id": i, "items": PRELUDE + items, "stdin": [], "meta": {"ctx": name, "e": pe(e)}})
             i += 1
     return out
+
+
+def exprs_deep():
+    """operands with two or more operators inside, placed to the right and to the left of temp-register operators at operator depth 0..3"""
+    a, x = N("a"), N("x")
+    inner = [ix1(a, bin_("-", bin_("+", x, I(1)), I(1))), ix1(a, bin_("+", bin_("*", x, I(1)), I(0))), ix2(a, bin_("-", bin_("+", x, I(0)), I(1)), bin_("+", bin_("*", x, I(1)), I(1))),
+             lst([bin_("+", bin_("*", x, I(2)), I(1)), I(5)]), ix1(lst([I(7), bin_("+", bin_("+", x, x), x)]), I(1)), un("#", lst([bin_("+", bin_("+", x, I(1)), I(1))])),
+             bin_("+", bin_("*", x, I(3)), bin_("-", x, I(1))), bin_("-", x, bin_("+", bin_("*", x, I(2)), I(1))), call("f", bin_("+", bin_("*", x, I(2)), I(1))),
+             un("-", bin_("+", bin_("*", x, I(2)), I(1))), ix1(St("abc"), bin_("-", bin_("+", x, I(1)), I(1))), bin_("+", call("toa", bin_("+", bin_("*", x, I(2)), I(1))), St("s"))]
+    L = [bin_("*", x, I(100)), I(200), N("x"), call("f", I(1))]
+    out = []
+    for X in inner:
+        for l in L:
+            for op1 in ("+", "*", "-", "=="):
+                out.append(bin_(op1, l, X))
+                out.append(bin_(op1, X, l))
+                out.append(bin_(op1, bin_("+", l, I(3)), X))
+                out.append(bin_("+", bin_(op1, l, X), I(1)))
+                out.append(bin_("+", I(1), bin_(op1, l, bin_("*", I(1), X))))
+                out.append(bin_(op1, l, bin_("-", I(50), X)))
+    return out
